@@ -93,7 +93,7 @@ def muxnames_cases(tier):
     only give the bare field name), longer than a DBC symbol, or both; the selector before or after the muxed leaf."""
     out = []
     for sel_name, muxed_name in (("sid", "temp"), (LONG, "voltage"), ("sid", LONG + "_raw"), (LONG, LONG + "_value")):
-        for nested in (False, True):
+        for nested in (False, True, 2):
             for sel_first in (True, False):
                 for count in (1, 4):
                     out.append(("muxnames", {"sel": sel_name, "muxed": muxed_name, "nested": nested, "sel_first": sel_first, "count": count}))
@@ -152,7 +152,14 @@ def build_case(kind, spec, idx, h):
         if not spec["sel_first"]:
             pair.reverse()
         inner = tuple((n, i, t, None, None) for i, (n, t) in enumerate(pair))
-        if spec["nested"]:
+        if spec["nested"] == 2:
+            # two levels down, and the middle struct has a field named like the selector: the selector of a muxed
+            # field is its SIBLING (inner::ch::<sel>), not the same-named field further out (inner::<sel>)
+            decls.append(("struct", "N%d" % idx, inner))
+            decls.append(("struct", "M%d" % idx, ((spec["sel"], 0, U(8), None, None), ("ch", 1, ("ref", "N%d" % idx), None, None))))
+            decls.append(("struct", sname, (("counter", 0, U(8), None, None), ("inner", 1, ("ref", "M%d" % idx), None, None))))
+            pre = "inner::ch::"
+        elif spec["nested"]:
             decls.append(("struct", "N%d" % idx, inner))
             decls.append(("struct", sname, (("counter", 0, U(8), None, None), ("inner", 1, ("ref", "N%d" % idx), None, None))))
             pre = "inner::"
@@ -247,7 +254,7 @@ def feature_class(kind, spec):
     if kind in ("buses", "twobind"):
         return kind
     if kind == "muxnames":
-        return "muxnames:%s%s" % ("nested" if spec["nested"] else "flat", ",long" if len(spec["sel"]) > 32 or len(spec["muxed"]) > 32 else "")
+        return "muxnames:%s%s" % ("nested2" if spec["nested"] == 2 else "nested" if spec["nested"] else "flat", ",long" if len(spec["sel"]) > 32 or len(spec["muxed"]) > 32 else "")
     f = []
     for t in spec["fields"]:
         f.append(class_skeleton(t))
